@@ -100,6 +100,18 @@ class ObjMixin:
                 if hasattr(str, name):
                     return self._getattr(NPStr(self.split_enum(obj)), name)
                 self.raise_('AttributeError', f"'numpy.str_' object has no attribute '{name}'")
+            # an attribute with a numeric value for every member becomes an if-chain over the ordinal
+            from .values import is_num
+            try:
+                vals = [self._getattr(m, name) for m in obj.cls.members]
+            except PyExc:
+                vals = None
+            if vals is not None and all(is_num(v) for v in vals):
+                from .models.arrays import _ite
+                r = vals[-1]
+                for m, v in reversed(list(zip(obj.cls.members[:-1], vals[:-1]))):
+                    r = _ite(obj.ord == m.index, v, r)
+                return r
             return self._getattr(self.split_enum(obj), name)
         if isinstance(obj, SuperVal):
             return self.super_getattr(obj, name)
@@ -834,6 +846,8 @@ class ObjMixin:
             v = args[0]
             if isinstance(v, EnumMember) and v.cls is cls:
                 return v
+            if isinstance(v, SymEnum) and v.cls is cls:
+                return SymEnum(cls, v.ord)          # the member whose value the numpy string holds
             if isinstance(v, NPStr):
                 v = v.s
             for m in cls.members:
@@ -911,7 +925,7 @@ class ObjMixin:
 
     def dataclass_default(self, owner: ClassInfo, name):
         node = owner.ann_defaults[name]
-        fr = Frame(owner.module, dict(owner.attrs), closure=None)
+        fr = Frame(owner.module, dict(owner.attrs), closure=getattr(owner, 'outer_frame', None))
         v = self.eval(node, fr)
         from . import builtins_ as b
         if isinstance(v, b.FieldSpec):
